@@ -146,78 +146,76 @@ Proof.
   intros _ _ _ _ H (-> & -> & -> & ->). vm_compute in H. discriminate.
 Qed.
 
+(* a clamped long strictly inside the long range is the mathematical value itself: numbers beyond the long range
+   are stored by "%ld"/strtol as LONG_MAX / LONG_MIN, which no range check below accepts *)
+Lemma sat64_inv v : (- two63 < sat64 v < two63 - 1)%Z -> sat64 v = v.
+Proof.
+  unfold sat64, two63.
+  destruct (v >? _)%Z eqn:E1; [cbv beta iota; intros H; lia|]. destruct (v <? _)%Z eqn:E2; cbv beta iota; intros H; lia.
+Qed.
+
+Lemma sat64_octet v : octet (sat64 v) = true -> zoctet v.
+Proof.
+  intros H. apply octet_true in H. unfold zoctet in *. rewrite sat64_inv in H; [exact H|unfold two63; lia].
+Qed.
+
 Section Address.
 Variable ipf : bytes -> option bytes.
 (* contract assumed of the external lookup: none. Every statement below holds for every ipf. *)
 
-(* accepted without forceIp: six conversions happened; the STORED values (after %d's conversion to int)
-   are octets; the port is p1*256+p2, in 1..65535 (>= 1024 under ftp_sanitycheck); the address is h1.h2.h3.h4
-   and not 0.0.0.0 *)
-Theorem parse_ip_port_sound sanity buf a port :
-  parse_ip_port ipf sanity None buf = Some (a, port) ->
-  exists v1 v2 v3 v4 v5 v6,
-    scan_commas 6 buf = [v1; v2; v3; v4; v5; v6] /\
-    zoctet (to_int v1) /\ zoctet (to_int v2) /\ zoctet (to_int v3) /\ zoctet (to_int v4) /\
-    zoctet (to_int v5) /\ zoctet (to_int v6) /\
-    port = (to_int v5 * 256 + to_int v6)%Z /\ (1 <= port <= 65535)%Z /\ (sanity = true -> 1024 <= port)%Z /\
-    a = v4mapped (to_int v1) (to_int v2) (to_int v3) (to_int v4) /\
-    ~ (to_int v1 = 0 /\ to_int v2 = 0 /\ to_int v3 = 0 /\ to_int v4 = 0)%Z.
-Proof.
-  unfold parse_ip_port.
-  destruct (scan_commas 6 buf) as [|v1 [|v2 [|v3 [|v4 [|v5 [|v6 [|v7 l]]]]]]]; cbn [map]; try discriminate.
-  set (h1 := to_int v1); set (h2 := to_int v2); set (h3 := to_int v3); set (h4 := to_int v4).
-  set (p1 := to_int v5); set (p2 := to_int v6).
-  destruct ((p1 <? 0) || (p2 <? 0) || (p1 >? 255) || (p2 >? 255))%Z eqn:EP; [discriminate|].
-  destruct (octet h1 && octet h2 && octet h3 && octet h4) eqn:EH.
-  - destruct (is_any (v4mapped h1 h2 h3 h4)) eqn:EA; [discriminate|].
-    destruct (p1 * 256 + p2 <=? 0)%Z eqn:E0; [discriminate|].
-    destruct (sanity && (p1 * 256 + p2 <? 1024)%Z) eqn:ES; [discriminate|].
-    intros H; inversion H; subst a port; clear H.
-    apply andb_true_iff in EH as [EH E4]. apply andb_true_iff in EH as [EH E3]. apply andb_true_iff in EH as [E1 E2].
-    apply octet_true in E1, E2, E3, E4.
-    exists v1, v2, v3, v4, v5, v6. fold h1 h2 h3 h4 p1 p2.
-    assert (NZ : ~ (h1 = 0 /\ h2 = 0 /\ h3 = 0 /\ h4 = 0)%Z) by (apply is_any_v4mapped; assumption).
-    assert (SA : sanity = true -> (1024 <= p1 * 256 + p2)%Z) by (intros ->; cbn [andb] in ES; lia).
-    unfold zoctet in *. repeat split; try assumption; try lia.
-  - assert (EA : is_any zero16 = true) by reflexivity. rewrite EA. discriminate.
-Qed.
-
-(* the property at full strength holds when no component needs more than an int *)
-Theorem parse_ip_port_components_partial sanity buf a port :
-  parse_ip_port ipf sanity None buf = Some (a, port) ->
-  Forall (fun v => - two31 <= v < two31)%Z (scan_commas 6 buf) ->
+(* accepted (with or without forceIp): six numbers were converted and every WRITTEN number is an octet, whatever its
+   size in digits; the port is p1*256+p2 in 1..65535 (>= 1024 under ftp_sanitycheck); without forceIp the address is
+   exactly h1.h2.h3.h4 and not 0.0.0.0, with forceIp it is the forced one *)
+Theorem parse_ip_port_sound sanity force buf a port :
+  parse_ip_port ipf sanity force buf = Some (a, port) ->
   exists v1 v2 v3 v4 v5 v6,
     scan_commas 6 buf = [v1; v2; v3; v4; v5; v6] /\
     zoctet v1 /\ zoctet v2 /\ zoctet v3 /\ zoctet v4 /\ zoctet v5 /\ zoctet v6 /\
     port = (v5 * 256 + v6)%Z /\ (1 <= port <= 65535)%Z /\ (sanity = true -> 1024 <= port)%Z /\
-    a = v4mapped v1 v2 v3 v4 /\ ~ (v1 = 0 /\ v2 = 0 /\ v3 = 0 /\ v4 = 0)%Z.
-Proof.
-  intros H F. destruct (parse_ip_port_sound _ _ _ _ H) as (v1 & v2 & v3 & v4 & v5 & v6 & S & R).
-  rewrite S in F.
-  repeat match goal with F : Forall _ (_ :: _) |- _ => inversion F; subst; clear F end.
-  rewrite !to_int_id in R by assumption.
-  exists v1, v2, v3, v4, v5, v6. split; [exact S|exact R].
-Qed.
-
-(* with forceIp the port part is checked the same way and the address is the forced one *)
-Theorem parse_ip_port_forced_sound sanity t buf a port :
-  parse_ip_port ipf sanity (Some t) buf = Some (a, port) ->
-  exists v1 v2 v3 v4 v5 v6,
-    scan_commas 6 buf = [v1; v2; v3; v4; v5; v6] /\
-    zoctet (to_int v5) /\ zoctet (to_int v6) /\
-    port = (to_int v5 * 256 + to_int v6)%Z /\ (1 <= port <= 65535)%Z /\ (sanity = true -> 1024 <= port)%Z /\
-    a = assign ipf t.
+    match force with
+    | None => a = v4mapped v1 v2 v3 v4 /\ ~ (v1 = 0 /\ v2 = 0 /\ v3 = 0 /\ v4 = 0)%Z
+    | Some t => a = assign ipf t
+    end.
 Proof.
   unfold parse_ip_port.
   destruct (scan_commas 6 buf) as [|v1 [|v2 [|v3 [|v4 [|v5 [|v6 [|v7 l]]]]]]]; cbn [map]; try discriminate.
-  set (p1 := to_int v5); set (p2 := to_int v6).
-  destruct ((p1 <? 0) || (p2 <? 0) || (p1 >? 255) || (p2 >? 255))%Z eqn:EP; [discriminate|].
-  destruct (p1 * 256 + p2 <=? 0)%Z eqn:E0; [discriminate|].
-  destruct (sanity && (p1 * 256 + p2 <? 1024)%Z) eqn:ES; [discriminate|].
-  intros H; inversion H; subst a port; clear H.
-  exists v1, v2, v3, v4, v5, v6. fold p1 p2.
-  assert (SA : sanity = true -> (1024 <= p1 * 256 + p2)%Z) by (intros ->; cbn [andb] in ES; lia).
-  unfold zoctet. repeat split; try assumption; try lia.
+  destruct ((sat64 v5 <? 0) || (sat64 v6 <? 0) || (sat64 v5 >? 255) || (sat64 v6 >? 255))%Z eqn:EP; [discriminate|].
+  destruct (octet (sat64 v1) && octet (sat64 v2) && octet (sat64 v3) && octet (sat64 v4)) eqn:EH; cbn [negb]; [|discriminate].
+  apply andb_true_iff in EH as [EH E4]. apply andb_true_iff in EH as [EH E3]. apply andb_true_iff in EH as [E1 E2].
+  assert (E5 : octet (sat64 v5) = true) by (unfold octet; lia).
+  assert (E6 : octet (sat64 v6) = true) by (unfold octet; lia).
+  pose proof (sat64_octet _ E1) as O1. pose proof (sat64_octet _ E2) as O2. pose proof (sat64_octet _ E3) as O3.
+  pose proof (sat64_octet _ E4) as O4. pose proof (sat64_octet _ E5) as O5. pose proof (sat64_octet _ E6) as O6.
+  assert (S1 : sat64 v1 = v1) by (apply sat64_id; unfold zoctet, two63 in *; lia).
+  assert (S2 : sat64 v2 = v2) by (apply sat64_id; unfold zoctet, two63 in *; lia).
+  assert (S3 : sat64 v3 = v3) by (apply sat64_id; unfold zoctet, two63 in *; lia).
+  assert (S4 : sat64 v4 = v4) by (apply sat64_id; unfold zoctet, two63 in *; lia).
+  assert (S5 : sat64 v5 = v5) by (apply sat64_id; unfold zoctet, two63 in *; lia).
+  assert (S6 : sat64 v6 = v6) by (apply sat64_id; unfold zoctet, two63 in *; lia).
+  rewrite S1, S2, S3, S4, S5, S6.
+  destruct force as [t|].
+  - destruct (v5 * 256 + v6 <=? 0)%Z eqn:E0; [discriminate|].
+    destruct (sanity && (v5 * 256 + v6 <? 1024)%Z) eqn:ES; [discriminate|].
+    intros H; inversion H; subst a port; clear H.
+    assert (SA : sanity = true -> (1024 <= v5 * 256 + v6)%Z) by (intros ->; cbn [andb] in ES; lia).
+    exists v1, v2, v3, v4, v5, v6. unfold zoctet in *. repeat split; try assumption; try lia.
+  - destruct (is_any (v4mapped v1 v2 v3 v4)) eqn:EA; [discriminate|].
+    destruct (v5 * 256 + v6 <=? 0)%Z eqn:E0; [discriminate|].
+    destruct (sanity && (v5 * 256 + v6 <? 1024)%Z) eqn:ES; [discriminate|].
+    intros H; inversion H; subst a port; clear H.
+    assert (NZ : ~ (v1 = 0 /\ v2 = 0 /\ v3 = 0 /\ v4 = 0)%Z) by (apply is_any_v4mapped; assumption).
+    assert (SA : sanity = true -> (1024 <= v5 * 256 + v6)%Z) by (intros ->; cbn [andb] in ES; lia).
+    exists v1, v2, v3, v4, v5, v6. unfold zoctet in *. repeat split; try assumption; try lia.
+Qed.
+
+(* contrapositive, spelled out: a string with any written number outside 0..255 -- including numbers of any length,
+   which "%ld" clamps to LONG_MAX / LONG_MIN -- is refused *)
+Theorem parse_ip_port_rejects_non_octets sanity force buf :
+  ~ Forall zoctet (scan_commas 6 buf) -> parse_ip_port ipf sanity force buf = None.
+Proof.
+  intros NF. destruct (parse_ip_port ipf sanity force buf) as [[a port]|] eqn:E; [|reflexivity].
+  exfalso. apply NF. destruct (parse_ip_port_sound _ _ _ _ _ E) as (v1 & v2 & v3 & v4 & v5 & v6 & S & R).
+  rewrite S. destruct R as (O1 & O2 & O3 & O4 & O5 & O6 & _). repeat (constructor; [assumption|]). constructor.
 Qed.
 
 (* ================================================================== *)
@@ -247,36 +245,37 @@ Proof.
     rewrite E, G. cbn [negb andb]. repeat split; [f_equal; exact A | lia | f_equal; exact C | exact D].
 Qed.
 
-(* accepted EPRT: <d> net-prt <d> address <d> port '|'; the protocol value as an int is 1 or 2 and matches
-   the family of the address; the address is what the lookup returned for exactly the delimited text, not a
-   wildcard; the MATHEMATICAL value of the port digits is in 1..65535 (>= 1024 under ftp_sanitycheck) *)
+(* accepted EPRT: <d> net-prt <d> address <d> port '|'; the WRITTEN protocol number is 1 or 2 and matches the family
+   of the address; the address is what the lookup returned for exactly the delimited text, not a wildcard; the
+   MATHEMATICAL value of the port digits is in 1..65535 (>= 1024 under ftp_sanitycheck) *)
 Theorem parse_proto_sound sanity buf a port :
   parse_proto_ip_port ipf sanity buf = EOk a port ->
   exists d s pv s2 ip s3 e3,
     buf = d :: s /\
-    scan_int s = Some (pv, d :: s2) /\ (to_int pv = 1 \/ to_int pv = 2)%Z /\
+    scan_int s = Some (pv, d :: s2) /\ (pv = 1 \/ pv = 2)%Z /\
     s2 = ip ++ d :: s3 /\ forallb (fun c => negb (c =? d)) ip = true /\ lenN ip < max_ipstrlen /\
-    ipf ip = Some a /\ is_any a = false /\ ((to_int pv = 2)%Z <-> is_v4 a = false) /\
+    ipf ip = Some a /\ is_any a = false /\ ((pv = 2)%Z <-> is_v4 a = false) /\
     scan_int s3 = Some (port, e3) /\ head0 e3 = 124 /\
     (1 <= port <= 65535)%Z /\ (sanity = true -> 1024 <= port)%Z.
 Proof.
   unfold parse_proto_ip_port. destruct buf as [|d s]; [discriminate|].
   destruct (strtol10 s) as [pl e] eqn:E1.
-  destruct (negb ((wrap32 pl =? 1)%Z || (wrap32 pl =? 2)%Z) || negb (head0 e =? d)) eqn:C1; [discriminate|].
+  destruct (negb ((pl =? 1)%Z || (pl =? 2)%Z) || negb (head0 e =? d)) eqn:C1; [discriminate|].
   apply orb_false_iff in C1 as [C1a C1b]. apply negb_false_iff in C1a, C1b.
   destruct (find_first (fun c => c =? d) (dropN 1 e)) as [k|] eqn:F; [|discriminate].
   destruct (max_ipstrlen <=? k) eqn:C2; [discriminate|].
   set (a0 := assign ipf (takeN k (dropN 1 e))).
   destruct (is_any a0) eqn:C3; [discriminate|].
-  destruct (negb (Bool.eqb (wrap32 pl =? 2)%Z (negb (is_v4 a0)))) eqn:C4; [discriminate|].
+  destruct (negb (Bool.eqb (pl =? 2)%Z (negb (is_v4 a0)))) eqn:C4; [discriminate|].
   destruct (strtol10 (dropN (k + 1) (dropN 1 e))) as [po e3] eqn:E2.
   destruct (((po <=? 0) || (po >? 65535))%Z || negb (head0 e3 =? 124)) eqn:C5; [discriminate|].
   destruct (sanity && (po <? 1024)%Z) eqn:C6; [discriminate|].
   intros H; inversion H; subst a port; clear H.
   apply orb_false_iff in C5 as [C5a C5b]. apply negb_false_iff in C5b.
-  assert (PL : (pl <> 0)%Z).
-  { intros ->. vm_compute in C1a. discriminate. }
+  assert (PL : (pl <> 0)%Z) by lia.
   destruct (strtol10_some _ _ _ E1 PL) as (pv & SP & ->).
+  assert (PV : sat64 pv = pv) by (apply sat64_inv; unfold two63; lia).
+  rewrite PV in *.
   assert (PO : (po <> 0)%Z) by lia.
   destruct (strtol10_some _ _ _ E2 PO) as (pm & SO & ->).
   assert (PM : sat64 pm = pm).
@@ -292,16 +291,15 @@ Proof.
   assert (IPF : ipf ip = Some a0).
   { subst a0. rewrite D1 in *. rewrite <- C in *. unfold assign in *. destruct (ipf ip) as [x|]; [reflexivity|].
     vm_compute in C3. discriminate. }
-  assert (T : to_int pv = wrap32 (sat64 pv)) by reflexivity.
-  assert (P12 : (to_int pv = 1 \/ to_int pv = 2)%Z) by (rewrite T; lia).
+  assert (P12 : (pv = 1 \/ pv = 2)%Z) by lia.
   assert (LEN : lenN ip < max_ipstrlen) by lia.
   assert (SO' : scan_int s3 = Some (pm, e3)) by (rewrite D; exact SO).
   assert (H124 : head0 e3 = 124) by (apply N.eqb_eq, C5b).
   assert (RNG : (1 <= pm <= 65535)%Z) by lia.
   assert (SA : sanity = true -> (1024 <= pm)%Z) by (intros ->; cbn [andb] in C6; lia).
-  assert (FAM : (to_int pv = 2)%Z <-> is_v4 a0 = false).
-  { rewrite T. apply negb_false_iff in C4. apply Bool.eqb_prop in C4. split.
-    - intros P2. assert (X : (wrap32 (sat64 pv) =? 2)%Z = true) by lia. rewrite X in C4.
+  assert (FAM : (pv = 2)%Z <-> is_v4 a0 = false).
+  { apply negb_false_iff in C4. apply Bool.eqb_prop in C4. split.
+    - intros P2. assert (X : (pv =? 2)%Z = true) by lia. rewrite X in C4.
       symmetry in C4. apply negb_true_iff in C4. exact C4.
     - intros V. rewrite V in C4. cbn [negb] in C4. lia. }
   exists d, s, pv, s2, ip, s3, e3.
@@ -310,75 +308,18 @@ Proof.
   split; [exact H124|]. split; [exact RNG|exact SA].
 Qed.
 
-(* full strength for the protocol number too when it fits an int *)
-Theorem parse_proto_protocol_partial sanity d s a port pv r :
-  parse_proto_ip_port ipf sanity (d :: s) = EOk a port ->
-  scan_int s = Some (pv, r) -> (- two31 <= pv < two31)%Z ->
-  (pv = 1 \/ pv = 2)%Z /\ ((pv = 2)%Z <-> is_v4 a = false).
-Proof.
-  intros H S R. destruct (parse_proto_sound _ _ _ _ H) as (d' & s' & pv' & s2 & ip & s3 & e3 & A & B & C & _ & _ & _ & _ & _ & D & _).
-  inversion A; subst d' s'. rewrite S in B. inversion B; subst pv'.
-  rewrite to_int_id in C, D by exact R. split; assumption.
-Qed.
-
 End Address.
 
-(* ---- the full statement is false: witnesses ---- *)
-Definition bytes_of_ascii (l : list N) : bytes := l.
-
-(* "4294967297,2,3,4,5,6" *)
-Definition w_port_wrap : bytes := [52;50;57;52;57;54;55;50;57;55;44;50;44;51;44;52;44;53;44;54].
-(* "1,2,3,4,4294967300,0": p1 reduces to 4, the port 1024 passes ftp_sanitycheck *)
+(* ---- concrete strings used by the Examples of Properties_C40.v ---- *)
+(* "1,2,3,4,4294967300,0", "4294967297,2,3,4,5,6", "999,2,3,4,5,6": accepted before the repair in /repo *)
 Definition w_port_wrap_p1 : bytes := [49;44;50;44;51;44;52;44;52;50;57;52;57;54;55;51;48;48;44;48].
-
-Theorem parse_ip_port_components_refuted :
-  exists buf a port vs,
-    parse_ip_port (fun _ => None) true None buf = Some (a, port) /\ scan_commas 6 buf = vs /\
-    ~ Forall zoctet vs.
-Proof.
-  exists w_port_wrap_p1, (v4mapped 1 2 3 4), 1024%Z, [1; 2; 3; 4; 4294967300; 0]%Z.
-  split; [vm_compute; reflexivity|]. split; [vm_compute; reflexivity|].
-  intros F. repeat match goal with F : Forall _ (_ :: _) |- _ => inversion F; subst; clear F end.
-  unfold zoctet in *. lia.
-Qed.
-
-Theorem parse_ip_port_host_refuted :
-  exists buf a port vs,
-    parse_ip_port (fun _ => None) false None buf = Some (a, port) /\ scan_commas 6 buf = vs /\
-    ~ Forall zoctet vs.
-Proof.
-  exists w_port_wrap, (v4mapped 1 2 3 4), 1286%Z, [4294967297; 2; 3; 4; 5; 6]%Z.
-  split; [vm_compute; reflexivity|]. split; [vm_compute; reflexivity|].
-  intros F. repeat match goal with F : Forall _ (_ :: _) |- _ => inversion F; subst; clear F end.
-  unfold zoctet in *. lia.
-Qed.
-
-(* "999,2,3,4,5,6" with forceIp: accepted whatever the lookup does *)
+Definition w_port_wrap : bytes := [52;50;57;52;57;54;55;50;57;55;44;50;44;51;44;52;44;53;44;54].
 Definition w_forced : bytes := [57;57;57;44;50;44;51;44;52;44;53;44;54].
-Theorem parse_ip_port_forced_refuted : forall ipf t,
-  exists a port vs,
-    parse_ip_port ipf true (Some t) w_forced = Some (a, port) /\ scan_commas 6 w_forced = vs /\
-    ~ Forall zoctet vs.
-Proof.
-  intros ipf t. exists (assign ipf t), 1286%Z, [999; 2; 3; 4; 5; 6]%Z.
-  split; [reflexivity|]. split; [vm_compute; reflexivity|].
-  intros F. inversion F; subst. unfold zoctet in *. lia.
-Qed.
-
-(* "|4294967297|1.2.3.4|8080|" *)
+(* "1.2.3.4" and a lookup that knows only it; "|4294967297|1.2.3.4|8080|" *)
 Definition w_ip1234 : bytes := [49;46;50;46;51;46;52].
+Definition w_ipf (t : bytes) : option bytes := if list_eqb t w_ip1234 then Some (v4mapped 1 2 3 4) else None.
 Definition w_eprt_wrap : bytes :=
   [124;52;50;57;52;57;54;55;50;57;55;124] ++ w_ip1234 ++ [124;56;48;56;48;124].
-Definition w_ipf (t : bytes) : option bytes := if list_eqb t w_ip1234 then Some (v4mapped 1 2 3 4) else None.
-
-Theorem parse_proto_protocol_refuted :
-  exists ipf buf a port pv r,
-    parse_proto_ip_port ipf true buf = EOk a port /\ scan_int (dropN 1 buf) = Some (pv, r) /\
-    ~ (pv = 1 \/ pv = 2)%Z.
-Proof.
-  exists w_ipf, w_eprt_wrap, (v4mapped 1 2 3 4), 8080%Z, 4294967297%Z.
-  eexists. split; [vm_compute; reflexivity|]. split; [vm_compute; reflexivity|]. lia.
-Qed.
 
 (* ================================================================== *)
 (* Ftp::UnescapeDoubleQuoted                                           *)
@@ -733,7 +674,7 @@ Lemma parse_proto_nonempty ipf sanity buf : buf <> [] -> parse_proto_ip_port ipf
 Proof.
   destruct buf as [|d s]; [congruence|]. intros _. unfold parse_proto_ip_port.
   destruct (strtol10 s) as [pl e].
-  destruct (negb ((wrap32 pl =? 1)%Z || (wrap32 pl =? 2)%Z) || negb (head0 e =? d)); [discriminate|].
+  destruct (negb ((pl =? 1)%Z || (pl =? 2)%Z) || negb (head0 e =? d)); [discriminate|].
   destruct (find_first (fun c => c =? d) (dropN 1 e)) as [k|]; [|discriminate].
   destruct (max_ipstrlen <=? k); [discriminate|].
   destruct (is_any _); [discriminate|]. destruct (negb _); [discriminate|].
